@@ -4,6 +4,12 @@ import json, os
 V = os.path.dirname(os.path.dirname(os.path.abspath(__file__)))
 
 CLAIMED = {
+ "C16": {
+  "text": "The derive front end is a TLA+ state machine (DDerive: items consumed one by one into single-valued slots, then the final attribute-combination and shape checks). TLC explores every item sequence of <= 2 (quick) / <= 3 (thorough) items at container, variant and field level in every grouping, valid / invalid value / malformed, and every shape, and checks NoOverride, NoDrop, PoisonRejected, OnlyPoisonRejected and that the machine equals its functional form. Every decided input (2 236 quick; thorough: those plus a seeded sample of 5 000 three-item inputs) is rendered to a Rust item and compiled against the working tree; TLC validates per input that it is rejected exactly when the property lists a cause, by a diagnostic issued by the derive and never a panic, and that accepted inputs compile.",
+  "note": "One representative item per shape/level (named struct, tagged enum); helper functions are well typed. A diagnostic without error code is taken to be issued by the derive. Bounded by item-sequence length.",
+  "technique": "TLA+ state machine of the attribute parser + TLC exhaustive exploration; spec->impl replay through rustc; impl->spec trace validation of compiler diagnostics",
+  "design_ref": "DESIGN.md section 5 (C16)",
+ },
  "C13": {
   "text": "The bridge is four TLA+ functions transcribed from src/serde_json.rs (kind chain, into_value chain, From<Value>, Deserr for Value) plus the classification rule LitHolds. TLC checks on 959 small documents over number literals at every classification boundary that kinds agree at every node and that the round trip is the identity; every document and seeded random documents are parsed by serde_json and the real kind()/into_value()/From/Deserr observations are validated line by line by TLC (per-node kind agreement and classification by literal, view = ViewOf(held), both back-conversions = held, no error).",
   "note": "serde_json is trusted as parser and as holder of numbers. Nesting of validated documents is limited to ~80 levels by the Gson nesting limit of TLC's Json module (deeper nests are exercised by the C12 check).",
